@@ -189,6 +189,12 @@ def run(ctx, rep):
                     ta, tb = dc.of_operand(s['rv']['a']), dc.of_operand(s['rv']['b'])
                     if ('param', 2) in ta and ('field', 'offset') in tb:
                         sub = True
+            tt_ = BLC.blocks[bi]['term']
+            if tt_['k'] == 'call' and (tt_.get('callee') or '').rsplit('::', 1)[-1] in ('saturating_sub', 'checked_sub', 'wrapping_sub') \
+                    and len(tt_['args']) == 2 and (tt_.get('callee') or '').rsplit('::', 1)[-1] == 'saturating_sub':
+                ta, tb = dc.of_operand(tt_['args'][0]), dc.of_operand(tt_['args'][1])
+                if ('param', 2) in ta and ('field', 'offset') in tb:
+                    sub = True  # size.saturating_sub(offset): the same number whenever offset <= size, 0 otherwise
         ok = uses_size and sub
     rep.oblige('B1.left', BLIF, ok=ok, nontrivial=True)
     if not ok:
